@@ -296,16 +296,21 @@ Definition delete_range (s : st) (script : nat -> N -> hres) (nh : nat) (from to
     else if uT && (wrap64 (H + 1) <? to) then (s, [], Fail)
     else if negb uT && uH && (from <? T) then (s, [], Fail)
     else if negb uT && negb uH then (s, [], Fail)
-    else
+    else if uT then
       let '(s1, log, actual, ok) := delete_seq s script nh from cnt [] in
-      if uT then
-        let '(s2, tok) := set_tail s1 actual in
-        (s2, log, if tok && ok then Ok else Fail)
-      else (* uH && ~uT *)
+      let '(s2, tok) := set_tail s1 actual in
+      (s2, log, if tok && ok then Ok else Fail)
+    else (* uH && ~uT: the new head pointer is persisted before anything is deleted *)
+      match nb s (from - 1) with
+      | Found nh' =>
+        let s0 := write s [WPutTail (h_id tl); WPutHead (h_id nh')] in
+        let '(s1, log, actual, ok) := delete_seq s0 script nh from cnt [] in
         if from <? actual then
           let '(s2, hok) := set_head s1 (from - 1) in
           (s2, log, if hok && ok then Ok else Fail)
-        else (s1, log, if ok then Ok else Fail)
+        else (write s1 [WPutHead (h_id hd)], log, if ok then Ok else Fail)
+      | _ => (s, [], Fail)
+      end
   | _, _ => (s, [], Fail)
   end.
 
